@@ -13,10 +13,10 @@ import (
 // Optimized for performance and reduced memory footprint.
 func NewPHash64Alt(img image.Image) (phash PHash64, err error) {
 	var size image.Point
-	if img != nil {
+	if !isNilImage(img) {
 		size = img.Bounds().Size()
 	}
-	if img == nil || size.X != 64 || size.Y != 64 {
+	if isNilImage(img) || size.X != 64 || size.Y != 64 {
 		err = errors.New("error image size incompatible. PHash requires 64x64 image")
 		return
 	}
@@ -41,10 +41,10 @@ func NewPHash64Alt(img image.Image) (phash PHash64, err error) {
 // Optimized for performance and reduced memory footprint.
 func NewPHash256Alt(img image.Image) (phash PHash256, err error) {
 	var size image.Point
-	if img != nil {
+	if !isNilImage(img) {
 		size = img.Bounds().Size()
 	}
-	if img == nil || size.X != 256 || size.Y != 256 {
+	if isNilImage(img) || size.X != 256 || size.Y != 256 {
 		err = errors.New("error image size incompatible. PHash256 requires 256x256 image")
 		return
 	}
